@@ -210,6 +210,20 @@ Theorem C10_same_times_slow_shutdown_refuted :
 Proof. exact same_times_slow_shutdown_refuted. Qed.
 Print Assumptions C10_same_times_slow_shutdown_refuted.
 
+(* REFUTED as well under a parent that has a window (known finding F11): the nested scheduler holds one
+   slot of its parent while all its jobs run (C07), in the flattened graph each of them needs a slot. *)
+Theorem C10_same_times_windowed_parent_refuted :
+  exists c c' f h h' y,
+    wf c = true /\ wf c' = true /\ flat_ofb c c' f = true /\
+    forallb (fun n => if j_sched (jc c n) then (Nat.eqb n 0 || Nat.eqb (j_window (jc c n)) 0) && j_crit (jc c n) &&
+                        match j_timeout (jc c n) with None => true | _ => false end
+                      else negb (j_forever (jc c n)) && match j_out (jc c n) with ORet => true | _ => false end)
+            (all_ids c) = true /\
+    accept 3 c h = true /\ accept 3 c' h' = true /\ atomic_id c y = true /\
+    start_at 0 h y = Some 0%N /\ start_at 0 h' (fname f y) = Some 1%N.
+Proof. exact same_times_windowed_parent_refuted. Qed.
+Print Assumptions C10_same_times_windowed_parent_refuted.
+
 (* non-vacuity of (f): a nested tree (critical nested scheduler 1 = {2; 3 requires 2}, job 4
    requires 1) and its flattened graph: the relation holds, both have a schedule, same instants *)
 Definition ex_nested : cfg := mkCfg
